@@ -10,9 +10,15 @@
 //     enumerated, sorted, near-equal values expanded into concrete colliding address pairs; every witness is replayed on
 //     real Variable objects PLACED at those addresses), `grid` (binding of the model to the code: the key the real code
 //     stored is compared with K on spread / dense address sets, answers are compared with reachability for all pairs).
-#include "common.hpp"
+// (c) history part (asan): machines `ids3` / `ids4` - explicit-state search (xstate.hpp, implementation = transition
+//     relation) over API histories that interleave add / add-with-ids / remove / removeAll with the identifier operations
+//     (set/remove mapping and connection ids on direct, indirect AND unconnected pairs, both argument orders).  In every
+//     reached state all ordered pairs are asked of both query functions (fresh analysis) and of both id getters; the
+//     reference treats identifiers as decorations that never change connectivity.
+#include "xstate.hpp"
 
 #include "analysermodel_p.h"
+#include "variable_p.h"
 
 #include <new>
 #include <numeric>
@@ -880,6 +886,231 @@ void runGrid(uint64_t idx, Ctx &c)
 
 } // namespace
 
+// =================================================================== (c) history part: id operations interleaved with edges
+namespace {
+
+template<class T, class = void> struct HasIdMaps : std::false_type {};
+template<class T> struct HasIdMaps<T, std::void_t<decltype(std::declval<T &>().mMappingIdMap.size()), decltype(std::declval<T &>().mConnectionIdMap.size())>> : std::true_type {};
+
+template<int N>
+struct IdWorld
+{
+    enum Kind { ADD, ADD_IDS, REMOVE, REMOVE_ALL, SET_MID, SET_CID, RM_MID, RM_CID };
+    struct Op { Kind k; int i, j; };
+    static const std::vector<Op> &ops()
+    {
+        static std::vector<Op> o = [] {
+            std::vector<Op> r;
+            for (int i = 0; i < N; ++i) for (int j = i + 1; j < N; ++j) { r.push_back({ADD, i, j}); r.push_back({ADD_IDS, i, j}); r.push_back({REMOVE, i, j}); }
+            for (int i = 0; i < N; ++i) r.push_back({REMOVE_ALL, i, i});
+            for (Kind k : {SET_MID, SET_CID, RM_MID, RM_CID}) for (int i = 0; i < N; ++i) for (int j = 0; j < N; ++j) if (i != j) r.push_back({k, i, j});
+            return r;
+        }();
+        return o;
+    }
+    static const char *kindName(Kind k)
+    {
+        switch (k) {
+        case ADD: return "addEquivalence";
+        case ADD_IDS: return "addEquivalence-with-ids";
+        case REMOVE: return "removeEquivalence";
+        case REMOVE_ALL: return "removeAllEquivalences";
+        case SET_MID: return "setEquivalenceMappingId";
+        case SET_CID: return "setEquivalenceConnectionId";
+        case RM_MID: return "removeEquivalenceMappingId";
+        case RM_CID: return "removeEquivalenceConnectionId";
+        }
+        return "?";
+    }
+    static int opCount() { return int(ops().size()); }
+    static std::string opName(int op)
+    {
+        const Op &o = ops()[op];
+        std::string s = kindName(o.k);
+        s += "(v" + std::to_string(o.i);
+        if (o.k != REMOVE_ALL) s += ",v" + std::to_string(o.j);
+        if (o.k == ADD_IDS) s += ",\"m\",\"c\"";
+        if (o.k == SET_MID) s += ",\"x\"";
+        if (o.k == SET_CID) s += ",\"y\"";
+        return s + ")";
+    }
+
+    // ---- real objects: one variable per component (a connection id belongs to a component pair), flat siblings
+    ModelPtr m;
+    std::vector<VariablePtr> v;
+    // ---- reference: direct edges + identifiers as decorations of unordered pairs
+    bool edge[N][N] = {};
+    std::string mid[N][N], cid[N][N];
+    std::string lastOp = "initial";
+    std::string lastRelation = "none";
+    std::string lastClass = "nothing"; // edge-addition | edge-removal | id-operation: the class of the last operation (part of the signature)
+
+    IdWorld()
+    {
+        m = Model::create("m");
+        for (int i = 0; i < N; ++i) {
+            auto c = Component::create("c" + std::to_string(i));
+            auto x = Variable::create("v" + std::to_string(i));
+            x->setUnits("dimensionless");
+            x->setInterfaceType("public");
+            c->addVariable(x);
+            m->addComponent(c);
+            v.push_back(x);
+        }
+    }
+    bool enabled(int) { return true; }
+    UF refClasses() const
+    {
+        UF uf(N);
+        for (int i = 0; i < N; ++i) for (int j = i + 1; j < N; ++j) if (edge[i][j]) uf.unite(i, j);
+        return uf;
+    }
+    void setRef(std::string (&a)[N][N], int i, int j, const std::string &x) { a[i][j] = a[j][i] = x; }
+    // after edges went away: a pair that is no longer linked carries no identifier
+    void clearDisconnected()
+    {
+        UF uf = refClasses();
+        for (int i = 0; i < N; ++i) for (int j = 0; j < N; ++j) if (i != j && !uf.same(i, j)) { mid[i][j].clear(); cid[i][j].clear(); }
+    }
+    void apply(int op, std::vector<Viol> &)
+    {
+        const Op &o = ops()[op];
+        int i = o.i, j = o.j;
+        UF before = refClasses();
+        lastOp = kindName(o.k);
+        lastClass = (o.k == ADD || o.k == ADD_IDS) ? "edge-addition" : (o.k == REMOVE || o.k == REMOVE_ALL) ? "edge-removal" : "id-operation";
+        lastRelation = o.k == REMOVE_ALL ? "variable" : edge[i][j] ? "direct-pair" : before.same(i, j) ? "indirect-pair" : "unconnected-pair";
+        switch (o.k) {
+        case ADD:
+            Variable::addEquivalence(v[i], v[j]);
+            if (!edge[i][j]) { edge[i][j] = edge[j][i] = true; setRef(mid, i, j, ""); setRef(cid, i, j, ""); } // a new equivalence starts without identifiers
+            break;
+        case ADD_IDS:
+            Variable::addEquivalence(v[i], v[j], "m", "c");
+            edge[i][j] = edge[j][i] = true;
+            setRef(mid, i, j, "m");
+            setRef(cid, i, j, "c");
+            break;
+        case REMOVE:
+            Variable::removeEquivalence(v[i], v[j]);
+            if (edge[i][j]) { edge[i][j] = edge[j][i] = false; setRef(mid, i, j, ""); setRef(cid, i, j, ""); } // the map_variables element is gone, and its ids with it
+            clearDisconnected();
+            break;
+        case REMOVE_ALL:
+            v[i]->removeAllEquivalences();
+            for (int k = 0; k < N; ++k) if (edge[i][k]) { edge[i][k] = edge[k][i] = false; setRef(mid, i, k, ""); setRef(cid, i, k, ""); }
+            clearDisconnected();
+            break;
+        case SET_MID:
+            Variable::setEquivalenceMappingId(v[i], v[j], "x");
+            if (before.same(i, j)) setRef(mid, i, j, "x"); // "if the two variables are not equivalent the identifier is not set"
+            break;
+        case SET_CID:
+            Variable::setEquivalenceConnectionId(v[i], v[j], "y");
+            if (before.same(i, j)) setRef(cid, i, j, "y");
+            break;
+        case RM_MID:
+            Variable::removeEquivalenceMappingId(v[i], v[j]);
+            if (before.same(i, j)) setRef(mid, i, j, "");
+            break;
+        case RM_CID:
+            Variable::removeEquivalenceConnectionId(v[i], v[j]);
+            if (before.same(i, j)) setRef(cid, i, j, "");
+            break;
+        }
+    }
+    // hidden entries of the id maps (auxiliary: part of the state key only, so that stale entries are explored, never judged)
+    template<class Impl> static std::string hidden(Impl *p, const std::vector<VariablePtr> &vars)
+    {
+        std::string s;
+        if constexpr (HasIdMaps<Impl>::value) {
+            for (size_t k = 0; k < vars.size(); ++k) {
+                auto a = p->mMappingIdMap.find(vars[k]);
+                auto b = p->mConnectionIdMap.find(vars[k]);
+                s += a == p->mMappingIdMap.end() ? "-" : "[" + a->second + "]";
+                s += b == p->mConnectionIdMap.end() ? "-" : "[" + b->second + "]";
+            }
+        }
+        return s;
+    }
+    std::string canon()
+    {
+        std::string s;
+        for (int i = 0; i < N; ++i) {
+            std::vector<int> nb;
+            for (size_t e = 0; e < v[i]->equivalentVariableCount(); ++e) {
+                auto w = v[i]->equivalentVariable(e);
+                int k = -1;
+                for (int q = 0; q < N; ++q) if (v[q] == w) k = q;
+                nb.push_back(k);
+            }
+            std::sort(nb.begin(), nb.end());
+            s += "v" + std::to_string(i) + "{";
+            for (int k : nb) s += std::to_string(k) + " ";
+            s += "}";
+            for (int j = 0; j < N; ++j) if (i != j) s += "(" + Variable::equivalenceMappingId(v[i], v[j]) + "|" + Variable::equivalenceConnectionId(v[i], v[j]) + ")";
+            s += "h:" + hidden(v[i]->pFunc(), v) + ";";
+        }
+        return s;
+    }
+    json refJson() const
+    {
+        json e = json::array(), ids = json::array();
+        for (int i = 0; i < N; ++i) for (int j = i + 1; j < N; ++j) {
+            if (edge[i][j]) e.push_back({i, j});
+            if (!mid[i][j].empty() || !cid[i][j].empty()) ids.push_back({{"pair", {i, j}}, {"mapping", mid[i][j]}, {"connection", cid[i][j]}});
+        }
+        return {{"edges", e}, {"ids", ids}};
+    }
+    // the full oracle, evaluated in every reached state
+    void invariant(std::vector<Viol> &out)
+    {
+        std::set<std::string> seen;
+        auto add = [&](const std::string &sig, json d) {
+            if (!seen.insert(sig).second) return;
+            d["reference"] = refJson();
+            d["last_operation_on"] = lastRelation;
+            d["last_operation"] = lastOp;
+            out.push_back({sig + ":after-" + lastClass, d});
+        };
+        // 1. the public neighbour lists are the reference's direct edges (identifier operations never touch them)
+        bool closed = true;
+        UF uf = reachability(v, &closed);
+        for (int i = 0; i < N; ++i) {
+            std::set<int> nb;
+            for (size_t e = 0; e < v[i]->equivalentVariableCount(); ++e) { auto w = v[i]->equivalentVariable(e); for (int q = 0; q < N; ++q) if (v[q] == w) nb.insert(q); }
+            for (int j = 0; j < N; ++j) if (i != j && (nb.count(j) > 0) != edge[i][j]) add("history:equivalentVariable-lists-differ-from-the-edges-added-and-removed", {{"variable", i}, {"other", j}, {"listed", nb.count(j) > 0}});
+        }
+        // 2. both query functions against reachability over the lists, every ordered pair, twice, on a fresh analysis
+        auto a = Analyser::create();
+        a->analyseModel(m);
+        auto am = a->model();
+        for (int rep = 0; rep < 2; ++rep) for (int i = 0; i < N; ++i) for (int j = 0; j < N; ++j) {
+            bool linked = i != j && uf.same(i, j);
+            bool h = v[i]->hasEquivalentVariable(v[j], true);
+            bool q = am->areEquivalentVariables(v[i], v[j]);
+            if (i != j && h != linked) add(std::string("history:hasEquivalentVariable:") + (h ? "got-true-expected-false" : "got-false-expected-true"), {{"x", i}, {"y", j}, {"repetition", rep}});
+            if (q != (i == j || linked)) add(std::string("history:areEquivalentVariables:") + (q ? "got-true-expected-false" : "got-false-expected-true") + (i == j ? ":same-variable" : ""), {{"x", i}, {"y", j}, {"repetition", rep}});
+        }
+        // 3. the identifier getters: "" for a pair that is not linked; otherwise the decoration last given to the pair
+        UF ref = refClasses();
+        for (int i = 0; i < N; ++i) for (int j = 0; j < N; ++j) {
+            if (i == j) continue;
+            std::string gm = Variable::equivalenceMappingId(v[i], v[j]), gc = Variable::equivalenceConnectionId(v[i], v[j]);
+            const char *rel = edge[i][j] ? "direct-pair" : ref.same(i, j) ? "indirect-pair" : "unconnected-pair";
+            if (!uf.same(i, j)) {
+                if (!gm.empty()) add("history:equivalenceMappingId:pair-that-is-not-linked-has-an-id", {{"x", i}, {"y", j}, {"got", gm}});
+                if (!gc.empty()) add("history:equivalenceConnectionId:pair-that-is-not-linked-has-an-id", {{"x", i}, {"y", j}, {"got", gc}});
+                continue;
+            }
+            if (gm != mid[i][j]) add(std::string("history:equivalenceMappingId:") + rel + ":" + (gm.empty() ? "id-lost" : mid[i][j].empty() ? "id-out-of-nowhere" : "other-id"), {{"x", i}, {"y", j}, {"got", gm}, {"expected", mid[i][j]}});
+            if (gc != cid[i][j]) add(std::string("history:equivalenceConnectionId:") + rel + ":" + (gc.empty() ? "id-lost" : cid[i][j].empty() ? "id-out-of-nowhere" : "other-id"), {{"x", i}, {"y", j}, {"got", gc}, {"expected", cid[i][j]}});
+        }
+    }
+};
+
+} // namespace
+
 int main(int argc, char **argv)
 {
     MAXN = int(envU("C18_MAXN", 4));
@@ -887,6 +1118,9 @@ int main(int argc, char **argv)
     std::vector<Family> fs = {
         {"graph", graphCount, runGraph, [](uint64_t i) { return graphAt(i).show(); }},
         {"perm", permCount, runPerm, [](uint64_t i) { json j = permAt(i).show(); j["orders"] = "all permutations of the n*n ordered pairs"; return j; }},
+        // {maxDepth, maxStates} for the quick and the thorough tier (VERIF_TIER); --depth=N overrides
+        machineFamily<IdWorld<3>>("ids3", ExploreLimits{6, 2000000}, ExploreLimits{8, 2000000}),
+        machineFamily<IdWorld<4>>("ids4", ExploreLimits{4, 2000000}, ExploreLimits{5, 2000000}),
         {"selfcheck", [] { return uint64_t(SELF.size()); }, runSelf, [](uint64_t i) { return json{{"word_bits", SELF.at(i).W}, {"base", hex(SELF.at(i).B)}, {"bytes", SELF.at(i).S}}; }},
     };
 #ifdef C18_PLACEMENT
